@@ -12,10 +12,10 @@ IsEvent(e) == l <= Len(Trace) /\ Trace[l].ev = e /\ TLCSet(2, l) /\ l' = l + 1
 NoChange == UNCHANGED vars
 TInit == Init /\ l = 1
 
-ResetAll(clean, validate, resub) ==
+ResetAll(clean, validate, resub, qs) ==
   /\ started' = FALSE /\ cmds' = <<>> /\ subsS' = {} /\ phase' = "idle" /\ resubId' = 0
-  /\ cfg' = [clean |-> clean, validate |-> validate, resub |-> resub] /\ calls' = {} /\ obs' = {} /\ acked' = FALSE
-T_Config == l <= Len(Trace) /\ E.ev = "config" /\ TLCSet(2, l) /\ l' = l + 1 /\ ResetAll(E.clean, E.validate, E.resub)
+  /\ cfg' = [clean |-> clean, validate |-> validate, resub |-> resub, qs |-> qs] /\ calls' = {} /\ obs' = {} /\ acked' = FALSE
+T_Config == l <= Len(Trace) /\ E.ev = "config" /\ TLCSet(2, l) /\ l' = l + 1 /\ ResetAll(E.clean, E.validate, E.resub, E.qs)
 
 \* topics are logged as level sequences in packets and as plain strings in API arguments: join levels with "/"
 RECURSIVE Join(_)
@@ -62,9 +62,9 @@ T_Events ==
 
 T_Silent ==
   /\ l <= Len(Trace) /\ TLCSet(2, l) /\ UNCHANGED l
-  /\ \E c \in calls : Enqueue(c) \/ StopBegins(c)
+  /\ \E c \in calls : Enqueue(c) \/ StopBegins(c) \/ GiveUp(c)
 
-T_Skip == l <= Len(Trace) /\ E.ev # "config" /\ l' = EndIdx[E.tr] + 1 /\ ResetAll(FALSE, TRUE, TRUE)
+T_Skip == l <= Len(Trace) /\ E.ev # "config" /\ l' = EndIdx[E.tr] + 1 /\ ResetAll(FALSE, TRUE, TRUE, 100)
 TNext == T_Config \/ T_Events \/ T_Silent \/ T_Skip
 TSpec == TInit /\ [][TNext]_tvars
 
